@@ -217,7 +217,14 @@ func VerifyComplaint(
 		return NewError(err, "verify complaint signature")
 	}
 
-	secretShare, err := DecryptSecretShare(encSecretShare, keySym)
+	// The share was encrypted under the compressed encoding of the symmetric key. A complaint may carry the
+	// same point in another encoding, which satisfies the proof above, so decrypt with the canonical bytes.
+	keySymPubKey, err := keySym.publicKey()
+	if err != nil {
+		return NewError(err, "parse key sym")
+	}
+
+	secretShare, err := DecryptSecretShare(encSecretShare, NewPointFromPublicKey(keySymPubKey))
 	if err != nil {
 		return NewError(err, "decrypt secret share")
 	}
